@@ -17,6 +17,8 @@ CLAIMED = {
          "BOM-less texts begin with an ASCII character other than NUL (the property's precondition) and contain no NUL; the first character is never NUL (FF FE 00 00 is ambiguous). UTF-8 into a char target is a byte copy by design. The RapidYAML entry point is not built."),
  "C18": ("exploration", "seeded simulation: histories of 2-6 loads into one persistent target holding every std adapter the library ships (sequence, associative, unordered containers, adapters, optional, smart pointers, bitset, tuple, pair, atomic, strings, nested combinations, CSV rows), with intermediate loads aborted midway by injected faults (EOF at a byte, k-th allocation failing, device error silent or thrown); final state compared with the same load into a default-constructed target; MapLoadMode::OnlyExistKeys/UpdateKeys against a reference map replaying the history; allocator ledger balanced after the target is destroyed", "6 C18",
          "Differential against a fresh target: an error shared by both is invisible. Text formats: string fields are non-empty (\"\" is null there and null leaves a field unchanged by the documented rule). KF-XML-NULL-VS-EMPTY avoided in 63 of 64 runs."),
+ "C19": ("exploration", "seeded simulation of thread interleavings: 2-4 real threads, each with 3-10 operations (save/load on all four archives via memory and simulated streams on thread-local models, shared const model and input buffers, Convert of numbers/enums/chrono/UTF, validation-failing and corrupted loads) are parked and released one at a time by a seeded scheduler (random walk and PCT-style change points) with a preemption point at every basic block of instrumented code (-fsanitize-coverage=trace-pc-guard), every armed allocation and every simulated stream call; oracle 1 (asan+ubsan flavour) = every result equals the sequential run of the same operations; oracle 2 (tsan flavour, same plans) = ThreadSanitizer happens-before detection, to which the scheduler's futex hand-off is invisible", "6 C19",
+         "Exactly one thread runs at a time, so a race is observed through its effect on results (flavour asan) or through TSan's vector clocks (flavour tsan), not through simultaneous execution. libstdc++ and pugixml are not TSan-instrumented. A TSan report without a BitSerializer frame is a harness error (exit 2), not a violation."),
  "C20": ("fault_enumeration", "seeded simulation with exhaustive fault sweeps: for each seeded scenario (archive x dyn/zoo model x save/load x memory/stream) one fault kind is injected at EVERY position in turn - EOF at every byte, the k-th operator new failing for every k inside the library call, the simulated streambuf failing silently (badbit) or by throwing at every byte on load and on save, and library-detected errors at every place the scenario offers (CSV row width at every row, mismatched value at every field with ThrowError, unencodable text at every string, size() lie at every array); oracle = std::exception reaches the caller, no std::terminate/signal/sanitizer report/hang, MessagePack prefixes rejected, failure observable on return, exact allocator-ledger balance, partly loaded target reloadable", "6 C20",
          "Exhaustive per scenario, scenarios are sampled (exhaustive=false for the check). malloc inside RapidJSON/pugixml is not faulted. A leak must repeat on an immediate re-run to be reported (first-use statics are not leaks). fail@n is 'observable' when the call throws or the stream reports fail()."),
 }
@@ -33,7 +35,7 @@ NA = {
  "C16": "pure number<->text conversion",
  "C17": "pure function of (document, validators, maxValidationErrors); the error map lives and dies inside one call",
 }
-PENDING = {k: 'claimed in DESIGN.md; its check is still under construction in this session and is not registered until it runs clean' for k in ['C19']}
+PENDING = {}
 
 def main():
     commits = subprocess.run(["git", "-C", "/repo", "log", "--format=%H %s"], stdout=subprocess.PIPE, text=True).stdout.splitlines()
